@@ -457,6 +457,14 @@ example : ∀ o ∈ (run (init .tcp 0 512) demoOps).2, o ≠ .exc .runtime := by
 example : (step { init .udp 2 2 with isOpen := true, dev := [⟨0, .data [1, 2, 3]⟩] } (.read 1 none)).2 = .exc .runtime := by
   decide
 
+-- `exhausted_only_when_script_empty`: the outcome is reachable (a blocking read on a silent device)
+example : (step { init .serial 0 0 with isOpen := true, dev := [⟨5, .timeout⟩] } (.read 1 none)).2 = .exc .exhausted := by
+  decide
+
+-- `readUntilTimeout_le_n_partial`: a TCP call that returns the partial buffer after the deadline passed
+example : (step { init .tcp 0 512 with isOpen := true, buf := [7], dev := [⟨9, .data [8, 9]⟩] }
+            (.readUntilTimeout 5 (some 2))).2 = .ret [7, 8, 9] := by decide
+
 -- closed transport returning buffered data through socket `read_until` (the second disjunct is inhabited)
 example : (step { init .tcp 0 512 with isOpen := false, buf := [1, 10, 2] } (.readUntil [10] none)).2 = .ret [1, 10] := by
   decide
